@@ -57,6 +57,17 @@ def run_config(c, col):
     E.reset_modules()
     E.cfg.concrete_ints = True
     prof = E.Profile()
+    # the programs run with warnings.simplefilter("error", RuntimeWarning) (mchap/application/baseclass.py): an unguarded 0/0 in the
+    # plain-numpy record handling aborts the run.  Modelled for the record-level groups (no jitted code is executed in them).
+    E.cfg.fp_error = c["group"] in ("freq", "filter", "invalid")
+    try:
+        _dispatch(c, col, prof)
+    finally:
+        E.cfg.fp_error = False
+    col.functions |= set(prof.names())
+
+
+def _dispatch(c, col, prof):
     with prof:
         if c["group"] in ("exact-line", "ped-line"):
             from checks import c07
@@ -70,7 +81,6 @@ def run_config(c, col):
                 E.cfg.concrete_floats = False
         else:
             globals()["_run_" + c["group"]](c, col)
-    col.functions |= set(prof.names())
 
 
 # ------------------------------------------------------------------ the regex
@@ -508,6 +518,16 @@ def _run_callmask(c, col):
 
 
 def replay(v):
+    """(record-level groups run as the programs do: RuntimeWarning is an error, mchap/application/baseclass.py sets that filter)"""
+    import warnings
+
+    with warnings.catch_warnings():
+        if v["config"]["group"] in ("freq", "filter", "invalid"):
+            warnings.simplefilter("error", RuntimeWarning)
+        return _replay(v)
+
+
+def _replay(v):
     c = v["config"]
     k = v["kind"]
     m = v.get("model") or {}
